@@ -52,6 +52,27 @@ def norm (n : Nat) (v : Nat → α) : α := Scalar.sqrt (dot n v v)
 def pinvForward (m n : Nat) (P : Nat → Nat → α) (b : Nat → α) : Tab α :=
   tab n (matVec m P b)
 
+/-! ### `pinv` from a singular value decomposition (the kernel's own algorithm, with its tolerance defaulting)
+
+`torch.linalg.pinv(A, atol, rtol)`: `atol` defaults to `0`; `rtol` defaults to `max(m, n)·eps` unless a positive
+`atol` was given (then `0`); singular values `≤ max(atol, rtol·σ₁)` are treated as zero. -/
+
+def pinvCutoff (atol rtol : Option α) (m n : Nat) (eps sigma1 : α) : α :=
+  let a : α := match atol with | some a => a | none => k 0
+  let r : α := match rtol with
+    | some r => r
+    | none => if Scalar.lt (k 0) a then k 0 else k (max m n) * eps
+  smax a (r * sigma1)
+
+/-- `V Σ⁺ Uᵀ` with the reciprocals of the singular values above `cut` (`U : m × r`, `V : n × r`) -/
+def pinvOfSvd (r : Nat) (U V : Nat → Nat → α) (sigma : Nat → α) (cut : α) : Nat → Nat → α :=
+  fun i j => sumN r fun t => V i t * (if Scalar.lt cut (sigma t) then k 1 / sigma t else k 0) * U j t
+
+/-- `PINV.forward` with the kernel unfolded to an SVD (`sigma 0` is the largest singular value) -/
+def pinvForwardSvd (m n r : Nat) (U V : Nat → Nat → α) (sigma : Nat → α) (atol rtol : Option α) (eps : α)
+    (b : Nat → α) : Tab α :=
+  pinvForward m n (pinvOfSvd r U V sigma (pinvCutoff atol rtol m n eps (sigma 0))) b
+
 /-- `lstsq(A, b).solution` followed by the NaN assertion: the kernel's result is `none` when it contains
 a NaN (no NaN exists in the model's scalars). -/
 def lstsqForward (n : Nat) (sol : Option (Nat → α)) : Except String (Tab α) :=
@@ -186,6 +207,11 @@ def cgLoop (n : Nat) (A : Nat → Nat → α) (M : Option (Nat → Nat → α)) 
   | fuel+1, s =>
     if Scalar.lt (norm n s.r.get) atol then { s with stopped := true }
     else cgLoop n A M atol fuel (cgStep n A M s)
+
+/-- shape glue at the top of `CG.forward`: `if A.ndim == b.ndim + 1: b = b.unsqueeze(-1)` else
+`assert A.ndim == b.ndim`.  `.ok true` = unsqueezed. -/
+def cgEntry (ndimA ndimB : Nat) : Except String Bool :=
+  if ndimA = ndimB + 1 then .ok true else if ndimA = ndimB then .ok false else .error "assert:ndim"
 
 /-- `x.any()` -/
 def anyNonzero (n : Nat) (x : Nat → α) : Bool :=
